@@ -9,7 +9,7 @@ use miniz_oxide::DataFormat;
 use serde_json::{json, Value};
 use std::collections::BTreeMap;
 
-pub const CONTENTS: [&str; 12] = ["zeros", "R", "S3", "T", "alt", "ff", "H", "Hm", "Rm", "Hs", "ZH", "ZR"];
+pub const CONTENTS: [&str; 13] = ["zeros", "R", "S3", "T", "alt", "ff", "H", "Hm", "Rm", "Hs", "ZH", "ZR", "Hp"];
 
 pub fn content(kind: &str, n: usize) -> Vec<u8> {
     let salt = crate::util::seed();
@@ -25,6 +25,55 @@ pub fn content(kind: &str, n: usize) -> Vec<u8> {
             // every byte value occurs, but ~90% of the bytes are >= 144 (9-bit static codes)
             let mut l = Lcg(0x4873 ^ salt);
             (0..n).map(|i| if i < 256 { i as u8 } else { let x = l.next_u32(); if x % 10 == 0 { (x >> 8) as u8 % 144 } else { 144 + ((x >> 8) % 112) as u8 } }).collect()
+        }
+        "Hp" => {
+            // bytes >= 144 without any repeated 3-byte sequence inside the window (so every symbol
+            // is a literal and blocks are cut exactly where the compressor's own thresholds say),
+            // except for one 4-byte repeat (source ~100 bytes back) 4 bytes before every multiple of
+            // P, n = 4P + 100: as P sweeps 31 740..=32 780 a match straddles every possible cut offset,
+            // block after block
+            let p = (n.max(104) - 100) / 4;
+            const A: usize = 112;
+            let mut last_seen = vec![0u32; A * A * A];
+            let mut l = Lcg(0x4870 ^ salt);
+            let mut v: Vec<u8> = Vec::with_capacity(n);
+            let key = |a: u8, b: u8, c: u8| ((a - 144) as usize * A + (b - 144) as usize) * A + (c - 144) as usize;
+            let mut next_rep = p - 4;
+            while v.len() < n {
+                let len = v.len();
+                if len == next_rep && len > 200 {
+                    let src = len - 100 - (len % 7);
+                    for i in 0..4 {
+                        let c = v[src + i];
+                        v.push(c);
+                        let m = v.len();
+                        last_seen[key(v[m - 3], v[m - 2], c)] = m as u32;
+                    }
+                    next_rep += p;
+                    continue;
+                }
+                if len == next_rep {
+                    next_rep += p;
+                }
+                let mut tries = 0;
+                loop {
+                    let c = 144 + (l.next_u32() >> 8) as u8 % 112;
+                    let fresh = len < 2 || {
+                        let seen = last_seen[key(v[len - 2], v[len - 1], c)] as usize;
+                        seen == 0 || len + 1 - seen >= 40_000
+                    };
+                    tries += 1;
+                    if fresh || tries > 50 {
+                        v.push(c);
+                        if len >= 2 {
+                            last_seen[key(v[len - 2], v[len - 1], c)] = (len + 1) as u32;
+                        }
+                        break;
+                    }
+                }
+            }
+            v.truncate(n);
+            v
         }
         "ZH" | "ZR" => {
             // a short run first (so the very first block already holds matches and is not "fat"),
@@ -184,6 +233,16 @@ pub fn run(tier: &str) -> i32 {
                     }
                     cases.push((ki, n, level, strat));
                 }
+            }
+        }
+    }
+    // period sweep for the Hp class (Fixed strategy, lazy levels)
+    {
+        let ki = CONTENTS.iter().position(|c| *c == "Hp").unwrap();
+        cases.retain(|c| c.0 != ki);
+        for p in (31_740usize..=32_780).step_by(1) {
+            for level in if th { vec![4, 5, 6, 8, 9, 10] } else { vec![4, 9] } {
+                cases.push((ki, 4 * p + 100, level, 4));
             }
         }
     }
